@@ -310,7 +310,7 @@ class ModuleSweep:
         if r is None:
             return          # infeasible (or unknown): no refutation
         w, today, res, reproduced = r
-        self.finding('C01', 'non-ValidationError', key, input=w, opts=opts, today=today, n=n, approx=ctx.approx,
+        self.finding('C01', 'non-ValidationError', key, input=w, opts=opts, today=today, n=n, approx=ctx.approx or bool(getattr(ctx, 'soft', None)),
                      approx_why=list(ctx.approx_why), expected='raises %s' % p.exc.__name__,
                      real=list(res[:3]) if res[0] == 'raise' else ['return', repr(res[1])[:80]], reproduced=reproduced)
 
@@ -337,7 +337,7 @@ class ModuleSweep:
             if bad:
                 res = call_real(self.qual, [w], opts, today)
                 rep = res[0] == 'return' and (not isinstance(res[1], str) or res[1] == '')
-                self.finding('C01', 'bad return value', bad, input=w, opts=opts, today=today, n=n, approx=ctx.approx,
+                self.finding('C01', 'bad return value', bad, input=w, opts=opts, today=today, n=n, approx=ctx.approx or bool(getattr(ctx, 'soft', None)),
                              real=[res[0], repr(res[1])[:80]], reproduced=rep)
                 return
         if not isinstance(v, (str, FixedStr, LongStr)):
@@ -375,7 +375,7 @@ class ModuleSweep:
             return
         w, td, res, rep = r
         self.finding('C15', 'non-ASCII result', 'validate returns a non-ASCII character', input=w, opts=opts, today=td,
-                     n=n, approx=ctx.approx or isinstance(v, LongStr), real=[res[0], repr(res[1])[:80]], reproduced=rep)
+                     n=n, approx=ctx.approx or isinstance(v, LongStr) or bool(getattr(ctx, 'soft', None)), real=[res[0], repr(res[1])[:80]], reproduced=rep)
 
     def check_fixpoint(self, p, v, opts, n, m, w, today):
         """C02: validate(v) == v under the path condition, and v has no white space at either end"""
@@ -395,7 +395,7 @@ class ModuleSweep:
             if r is not None:
                 w2, td, res, rep = r
                 self.finding('C02', 'white space in result', 'validate returns a value with outer white space',
-                             input=w2, opts=opts, today=td, n=n, approx=ctx.approx, real=[res[0], repr(res[1])[:80]], reproduced=rep)
+                             input=w2, opts=opts, today=td, n=n, approx=ctx.approx or bool(getattr(ctx, 'soft', None)), real=[res[0], repr(res[1])[:80]], reproduced=rep)
                 if rep:
                     return
         # nested run: validate(v) under the path condition of this accepting path
@@ -430,7 +430,7 @@ class ModuleSweep:
                 continue
             w2, td, res, rep = r
             self.finding('C02', 'not a fixed point', what, input=w2, opts=opts, today=td, n=n,
-                         approx=ctx.approx or q.ctx.approx, real=[res[0], repr(res[1])[:80]], reproduced=rep)
+                         approx=ctx.approx or q.ctx.approx or bool(getattr(q.ctx, 'soft', None)), real=[res[0], repr(res[1])[:80]], reproduced=rep)
 
     # ------------------------------------------------------------------
     def result(self):
